@@ -14,6 +14,7 @@ DOC = {
                    'subtractions are guarded by a comparison or a min-clamp of the same operands, so that performance options such as --max-suffix-size cannot abort the run '
                    'or drop files (R4); and the semaphore the hashing tasks block on follows the monitor pattern (R5 = C19.R1-R4, termination).',
     'rules': {
+        'C13.M': __import__('fcverif.rules.common', fromlist=['MANDATORY_TEXT']).MANDATORY_TEXT,
         'C13.R1': 'group_files: the returned vector passed a stable sort keyed by Reverse((file_len, hash)) and sort_by_path on every group, on every path to Ok',
         'C13.R2': 'rehash: drop(original tx) dominates the recv loop; tasks capture a Sender clone; the loop leaves only on Err(recv); every received item is added; the throttle guard is acquired before spawn and dropped inside the task',
         'C13.R3': 'no HashMap/HashSet/DashMap iteration reachable from group_files/write_report (named exceptions)',
@@ -32,6 +33,8 @@ def run(ctx):
     r3(ctx)
     r4(ctx)
     r5(ctx)
+    from .common import run_mandatory
+    run_mandatory(ctx, 'C13')
 
 
 STABLE_SORT = r'(ParallelSliceMut|slice::<impl \[T\]>|Vec<.*>|\[T\])::(par_sort_by_key|par_sort_by|par_sort|sort_by_key|sort_by|sort|par_sort_by_cached_key|sort_by_cached_key)$'
